@@ -15,13 +15,18 @@
        Lowering.r_roe is the not_flagged list of that single entry; here the map is built by [inner_insert].
    (3) func / global / memory mapping : HashMap<u32,u32> (get_mapping_generic, mod.rs:1029): looked up only
        (Reindex.lookup (Reindex.mapping l)).
-   (4) types : HashMap<TypeID,Types> iterated by ModuleTypes::new into types_map (Types.build_map types order).
+   (4) types : HashMap<TypeID,Types>.  ModuleTypes::new collects its keys (`types.keys()`, visited in hash order
+       [o]), sorts them (`ids.sort_unstable()`, [sort_ids]) and inserts into types_map in that order:
+       [build_map_sorted types o] = Types.build_map types (sort_ids o).  Before the repair of D11 it inserted in
+       the visiting order itself (Types.build_map types o).
    (5) side_effects : HashMap<InjectType, Vec<Injection>>: returned to the caller, never iterated, never encoded.
 
-   The D11 class predicate (decided on the *input* of a scenario) is at the end.  No proofs in this file. *)
+   The former D11 class predicate (decided on the *input* of a scenario; D11 is repaired, the predicate is kept
+   because the harness still reports how many scenarios ask for a duplicated type) is at the end.
+   No proofs in this file. *)
 From Coq Require Import List NArith Bool.
 Import ListNotations.
-From Orca Require Import Flat Lowering.
+From Orca Require Import Flat Lowering Types.
 
 (* ---------- (1) the inner map of resolve_on_end, in iteration order ---------- *)
 Inductive imode := IBefore | IAfter.
@@ -57,12 +62,23 @@ Fixpoint inner_insert (m : imode) (b : list fop) (l : list (imode * pend)) : lis
 Definition roe_map (bs : list (list fop)) : list (imode * pend) :=
   fold_left (fun l b => inner_insert IBefore b l) bs [].
 
-(* ---------- the D11 class, decided on the input ---------- *)
+(* ---------- (4) ModuleTypes::new after the repair of D11 ---------- *)
+(* ids.sort_unstable(): the keys are distinct, so every sorting algorithm gives the same list; insertion sort here *)
+Fixpoint ins_id (x : N) (l : list N) : list N :=
+  match l with
+  | [] => [x]
+  | y :: l' => if N.leb x y then x :: l else y :: ins_id x l'
+  end.
+Definition sort_ids (l : list N) : list N := fold_right ins_id [] l.
+(* [o] = the order in which `types.keys()` happens to visit the ids *)
+Definition build_map_sorted (types : list ctype) (o : list N) : list (ctype * N) := build_map types (sort_ids o).
+
+(* ---------- the former D11 class, decided on the input ---------- *)
 Local Open Scope N_scope.
 Fixpoint count_tok (t : N) (l : list N) : N :=
   match l with [] => 0 | x :: l' => (if N.eqb x t then 1 else 0) + count_tok t l' end.
 (* [base]: one token per type of the input's type section, equal tokens = structurally equal types (what
    Types' Hash / PartialEq compare); [added]: the tokens of the types the scenario asks the library to add.
-   D11: some requested type is structurally equal to a type the input has (at least) twice. *)
+   (former) D11: some requested type is structurally equal to a type the input has (at least) twice. *)
 Definition d11_pred (base added : list N) : bool := existsb (fun t => 2 <=? count_tok t base) added.
 Definition has_dup (base : list N) : bool := existsb (fun t => 2 <=? count_tok t base) base.
